@@ -12,6 +12,7 @@ from __future__ import annotations
 import itertools
 import json
 import os
+import re
 import subprocess
 import sys
 from concurrent.futures import ThreadPoolExecutor
@@ -80,6 +81,7 @@ def _history_cases(tier: str):
         ("etac_lambda_lambdabar", "helicity", ["plain", "axis,plain"]),  # amplitudes without transitions (zero-filled)
         ("jpsi_gamma_pi0_pi0", "helicity", ["@plain", "@stable,scalar,plain", "@axis+stable,couplings,plain"]),  # one builder, settings changed between calls
         ("jpsi_pi0_pip_pim", "canonical-helicity", ["@stable", "@scalar,plain,axis,stable"]),
+        ("jpsi_sigmabar_sigma", "helicity", ["@parent_hel", "@plain,parent_hel", "@no_child_hel,plain,parent_hel"]),  # naming flags decide which chains share a coefficient
         ("jpsi_pi0_pip_pim", "helicity", ["axis", "plain,axis"]),  # three topologies, final-state id 0: names m_01 / m_1 tie under natural sorting
     ]
     if tier == "thorough":
@@ -144,6 +146,49 @@ def build(chk: Check) -> None:
         short = full.split(".")[-1]
         sites = by_src.get(short, [])
         chk.struct(f"O-cache[{full}].result_never_mutated_by_callers", not sites, full, witness=sites, replay=purity_replay)
+    # ---- O-cache: the key's equality must distinguish everything the result depends on ----
+    # qrules' Particle leaves name / pid / latex out of == and hash (dependency), so StateTransition, State, ReactionInfo keys are blind
+    # to particle NAMES: a memoised function with such a key may only return what does not carry names (ids, booleans, expressions over
+    # ids). Decided from the annotations of the cached functions; a refutation is replayed with a renamed copy of a real transition.
+    import ast as _ast
+
+    BLIND, NAMED = ("StateTransition", "State", "Particle", "ReactionInfo", "TwoBodyDecay", "StateWithID"), ("State", "Particle", "StateTransition", "StateWithID", "TwoBodyDecay", "str")
+    chk.assume("qrules.particle.Particle.__eq__/__hash__ ignore name, pid and latex (dependency; observed on the installed version)")
+    for f in funcs:
+        if not f.cached:
+            continue
+        params = [(_a.arg, _ast.unparse(_a.annotation) if _a.annotation else "") for _a in f.node.args.args]
+        blind = [n for n, ann in params if any(re.search(rf"\b{b}\b", ann) for b in BLIND)]
+        if not blind:
+            continue
+        ret = _ast.unparse(f.node.returns) if f.node.returns else "<unannotated>"
+        carries = [b for b in NAMED if re.search(rf"\b{b}\b", ret)] or (["<unannotated>"] if f.node.returns is None else [])
+
+        def rep_names(_m=None, f=f):
+            """Two real transitions that differ in the particle names only (same quantum numbers): the second call must describe the second."""
+            import importlib
+
+            import attrs
+            from vlib import zoo
+
+            fn = getattr(importlib.import_module(f.module), f.name, None)
+            r = zoo.reaction("jpsi_gamma_pi0_pi0", "helicity")
+            t = r.transitions[0]
+            t2 = attrs.evolve(t, states={i: attrs.evolve(st, particle=attrs.evolve(st.particle, name=st.particle.name + "#copy", latex=(st.particle.latex or "") + "'")) for i, st in t.states.items()})
+            if fn is None or t != t2:
+                return {"reproduced": False, "note": "not applicable (function not importable or the renamed transition is not equal to the original)"}
+            try:
+                node = next(iter(t.topology.nodes))
+                a = fn(t, node) if len(f.node.args.args) == 2 else fn(t)
+                b = fn(t2, node) if len(f.node.args.args) == 2 else fn(t2)
+            except Exception as e:  # noqa: BLE001
+                return {"reproduced": False, "note": f"{type(e).__name__}: {e}"[:200]}
+            return {"reproduced": "#copy" not in repr(b) and "#copy" not in repr(a) and repr(a) == repr(b) and any(p.name in repr(a) for p in (s_.particle for s_ in t.states.values())),
+                    "input": f"{f.full}(transition) then {f.full}(the same transition with every particle renamed to <name>#copy)", "observed": repr(b)[:300], "expected": "the result for the renamed transition carries the new names"}
+
+        chk.struct(f"O-cache[{f.full}].key_equality_covers_what_the_result_carries", not carries, f.full,
+                   witness={"name_blind_key_parameters": blind, "return_annotation": ret, "name_carrying_types_in_result": carries}, lemma=True, replay=rep_names)
+
     # ---- O-global ----
     g = frames.analyse_globals(funcs, os.path.join(REPO, "src"))
     chk.struct("O-global.no_module_level_container_mutated_in_functions", not g, F, witness=g, replay=purity_replay)
@@ -213,6 +258,14 @@ def build(chk: Check) -> None:
             continue
         chk.struct(f"ownership.mutated_call_result_is_fresh[{r['caller']}:{r['local']}<-{r['callee']}]", r["fresh"], r["callees"][0] if r["callees"] else r["caller"],
                    witness=r["why"], lemma=True, replay=purity_replay)
+
+    # ---- E4: containers a builder keeps in its own attributes and fills in its methods (memo tables that outlive formulate()) ----
+    memo = frames.analyse_instance_containers(funcs, ("HelicityAmplitudeBuilder", "CanonicalAmplitudeBuilder", "HelicityAdapter", "_HelicityModelIngredients"))
+    chk.extra["instance_containers"] = memo
+    kept = [m for m in memo if not m["reset_in_formulate"]]
+    chk.struct("ownership.builder_keeps_no_unreset_container_of_its_own", not kept, F, witness=kept, lemma=True, replay=purity_replay,
+               note="per-formulate state lives in __ingredients (reset() at the start of formulate: obligation reset.*) and in the kinematics adapter's topology set (monotone registration, C01); "
+                    "a dict/list/set bound in __init__ and filled by a method would make a later formulate() depend on an earlier one")
 
     # ---- E5: bounded history / seed / fresh-process replay ----
     matrix = _replay_purity(chk.tier)
